@@ -248,3 +248,67 @@ Theorem C03_source_loop_skeleton :
   /\ resolver_max_attempts = max_attempts_gen.
 Proof. exact resolve_skeleton. Qed.
 Print Assumptions C03_source_loop_skeleton.
+
+(* ---- the whole resolver: the C03 theorems above are about the regenerated source ---- *)
+From SPV Require Import Proofs.MiniPyOptStr Proofs.MiniPyResolve.
+(* get_conflict_fn (what the dumped get_conflict returns) on all positions in order IS the model's get_conflict *)
+Theorem C03_source_get_conflict_is_model : forall c fs,
+  get_conflict_fn c fs (seq 0 (List.length fs)) = get_conflict (option_strings c) fs.
+Proof. exact get_conflict_fn_all. Qed.
+Print Assumptions C03_source_get_conflict_is_model.
+
+Theorem C03_source_fix_explicit_is_model : forall c fs selfv o ids,
+  refs_ok (List.length fs) ids = true ->
+  final_store (MiniPy.exec_block (fa_env c fs selfv o ids) fix_conflict_explicit_src)
+  = match fix_explicit (option_strings c) fs o ids with
+    | Ok fs' => Ok (store c fs')
+    | Err e => Err (enc_err e)
+    end.
+Proof. exact fix_explicit_is_model. Qed.
+Print Assumptions C03_source_fix_explicit_is_model.
+
+(* resolve_and_flatten from its first get_conflict on, run by the MiniPy interpreter in the environment FIELDS (the flat list of
+   field wrappers as a store), self (conflict_resolution = the mode, max_attempts = the regenerated fact), wrappers_flat (dataclass
+   wrappers whose `fields` are the positions 0..n-1 in order: flat_ok): it returns wrappers_flat and leaves exactly the store the
+   model resolve_gen computes - or raises ConflictResolutionError exactly when the model says Err CRE (a clash in NONE mode, an
+   unfixable conflict, exhaustion of max_attempts).  The final `assert not self._conflict_exists(..)` never fires; the fuel of
+   the while loop is never exhausted (OutOfFuel is not a possible outcome). *)
+Theorem C03_source_is_model : forall c m fs gs,
+  flat_ok (List.length fs) gs = true ->
+  match resolve_gen (option_strings c) m fs with
+  | Ok fs' => exists r1, MiniPy.exec_block (resolve_env c m fs gs) resolve_src = Ok (r1, Some (VL (map enc_group gs)))
+                         /\ lookup "FIELDS" r1 = Some (store c fs')
+  | Err e => MiniPy.exec_block (resolve_env c m fs gs) resolve_src = Err (enc_err e)
+  end.
+Proof. exact resolve_src_is_model. Qed.
+Print Assumptions C03_source_is_model.
+
+Theorem C03_source_resolved_options_unique : forall c m fs gs r1 v,
+  flat_ok (List.length fs) gs = true ->
+  MiniPy.exec_block (resolve_env c m fs gs) resolve_src = Ok (r1, v) ->
+  exists fs', lookup "FIELDS" r1 = Some (store c fs') /\ resolve_gen (option_strings c) m fs = Ok fs'
+              /\ NoDup (List.concat (map (option_strings c) fs'))
+              /\ Forall (fun f => run_src c f = Ok (VL (map VS (option_strings c f)))) fs'.
+Proof. exact source_resolved_options_unique. Qed.
+Print Assumptions C03_source_resolved_options_unique.
+
+Theorem C03_source_none_iff_clash : forall c fs gs,
+  flat_ok (List.length fs) gs = true ->
+  match get_conflict (option_strings c) fs with
+  | None => exists r1, MiniPy.exec_block (resolve_env c CRNone fs gs) resolve_src = Ok (r1, Some (VL (map enc_group gs)))
+                       /\ lookup "FIELDS" r1 = Some (store c fs)
+  | Some _ => MiniPy.exec_block (resolve_env c CRNone fs gs) resolve_src = Err cre
+  end.
+Proof. exact source_none_iff_clash. Qed.
+Print Assumptions C03_source_none_iff_clash.
+
+Example C03_source_nonvacuous :
+  let fs := [mkfw ["a"] "x" "" [] false; mkfw ["b"] "x" "" [] false; mkfw ["b"] "y" "" [] false] in
+  flat_ok 3 [[0]; [1; 2]] = true
+  /\ match MiniPy.exec_block (resolve_env default_cfg_parser CRAuto fs [[0]; [1; 2]]) resolve_src with
+     | Ok (r1, _) => lookup "FIELDS" r1
+     | Err _ => None
+     end = Some (store default_cfg_parser [mkfw ["a"] "x" "a." [] false; mkfw ["b"] "x" "b." [] false; mkfw ["b"] "y" "" [] false])
+  /\ MiniPy.exec_block (resolve_env default_cfg_parser CRNone fs [[0]; [1; 2]]) resolve_src = Err cre.
+Proof. vm_compute. repeat split; reflexivity. Qed.
+Print Assumptions C03_source_nonvacuous.
